@@ -225,10 +225,17 @@ func (e *Engine) structSort(t types.Type, u *types.Struct) string {
 	e.sorts.byName[name] = u
 	var fis []fieldInfo
 	var parts []string
+	seenSel := map[string]bool{}
 	for i := 0; i < u.NumFields(); i++ {
 		f := u.Field(i)
 		fs := e.sortOf(f.Type())
 		sel := fmt.Sprintf("%s.%s", name, sym(f.Name()))
+		if f.Name() == "_" || seenSel[sel] {
+			// blank fields (a struct may have several, e.g. sync/atomic's
+			// Pointer[T]) need accessor names of their own
+			sel = fmt.Sprintf("%s.%s!%d", name, sym(f.Name()), i)
+		}
+		seenSel[sel] = true
 		fis = append(fis, fieldInfo{Name: f.Name(), Sel: sel, Sort: fs, Type: f.Type()})
 		parts = append(parts, fmt.Sprintf("(%s %s)", sel, fs))
 	}
